@@ -57,7 +57,7 @@ def ref_entropy(X, k, metric="euclidean", detail=False):
             gaps.append(abs(dist[order[k]] - dist[order[k - 1]]) / max(dist[order[k]], 1e-300))
         rho = math.sqrt(float(((X[i] - X[nb[-1]]) ** 2).sum()))
         logs.append(math.log(rho) if rho > 1e-12 else -12.0)
-        pts = X[[i] + nb]
+        pts = X[[i] + nb] - X[i]          # differences first (exact for nearby points): the centred neighbourhood does not depend on where the sample sits
         Yc = pts - pts.mean(axis=0)
         svals, V = jacobi_svd(Yc)
         r = min(k + 1, d)
